@@ -55,3 +55,10 @@ Theorem C14_translated_abstraction : forall table inUse,
   table_rel table inUse (abs_table table inUse).
 Proof. exact abs_table_rel. Qed.
 Print Assumptions C14_translated_abstraction.
+
+(* the translated method's result does not depend on what the object's table and bitmap held before the call:
+   run on ANY well-formed prior contents (table2, inUse2) it agrees with the model run on any other (table1) *)
+From LZ4V Require Import GenCompressBodyLoop GenCompressBodyMain GenCompressBodyCorollaries.
+Theorem C14_translated_state_independent : translated_state_indep_stmt.
+Proof. exact translated_state_indep. Qed.
+Print Assumptions C14_translated_state_independent.
